@@ -1,6 +1,6 @@
 (* C14  before_sleep/before_handle_events: once per dispatch, in order, right events. *)
 From CV Require Import Base Consts Token PostAction Env Loop.
-From CVP Require Import Loop_frames Seq_lemmas C14_proofs C14_life.
+From CVP Require Import Loop_frames Seq_lemmas C06_proofs C14_proofs C14_life C14_life2.
 Open Scope N_scope.
 
 (* the set of sources with lifecycle events: recording is idempotent (no duplicate entry after update/Reregister),
@@ -32,8 +32,7 @@ Proof. exact before_sleep_loop_no_panic. Qed.
 (* WHOLE HISTORIES of top-level operations: after ANY sequence of insert (also failing ones), remove, enable, disable, update,
    set_interest, set_deadline, into_inner, dropped dispatchers, pings, sends and idles issued on the empty loop, every lifecycle
    entry resolves to an occupied slot holding a lifecycle source (INV), so the two lifecycle loops of the next dispatch cannot
-   reach unreachable!(). (The repaired defect F2 broke exactly this. Closing the invariant under callbacks - where the source
-   being processed may have vacated its slot until its processing ends, the F15 corner - is not proved; see DESIGN.md 11.9.) *)
+   reach unreachable!(). (The repaired defect F2 broke exactly this.) *)
 Theorem C14_lifecycle_consistent_after_any_operations : forall acts, INV (exec_actions init acts).
 Proof. intros acts. apply INV_exec_actions. exact INV_init. Qed.
 Theorem C14_next_dispatch_never_unreachable : forall acts bscr, let s := exec_actions init acts in
@@ -41,6 +40,26 @@ Theorem C14_next_dispatch_never_unreachable : forall acts bscr, let s := exec_ac
   forall e2 line polled, let s1 := fst (before_sleep_loop bscr s (lifecycle s)) in
     snd (before_handle_loop (emit (set_en s1 e2) line) (lifecycle (emit (set_en s1 e2) line)) polled) = true.
 Proof. exact lifecycle_loops_safe. Qed.
+
+(* WHOLE HISTORIES INCLUDING CALLBACKS. Q: every lifecycle entry has sub-id 0 and resolves to an occupied slot holding an existing
+   lifecycle source - except, while a source is being processed, that source's own entry (it may have vacated its slot; its
+   unregistration is deferred to the end of its processing); objects held by slots exist and sit in one slot only; slots are
+   well formed; the slot of the running source's token is at the token's generation holding that source or nothing, or further
+   on. Q holds initially and is preserved by every action in any context (also inside callbacks and idles), by callbacks with
+   arbitrary scripts, by the channel drain loop and timer re-arming, by the post-action switch and the deferred unregistration
+   at the end of an event (which resolves the exception: F15's corner, and the self-removal + slot-reuse corner of seeds C16 /
+   C08b), by the idle phase, by dispatch and by every command. Hence EVERY state reached by ANY scenario has either halted in an
+   excluded call or satisfies Q with nothing running (C14_every_reachable_state), and the lifecycle loops of a dispatch started
+   there never reach unreachable!() (C14_never_unreachable). Hypothesis: no slot generation reaches 65536 (the properties' own
+   bound on slot reuse). *)
+Theorem C14_every_reachable_state : forall scr bscr cmds, gens_small (slots (run scr bscr cmds)) -> TOP (run scr bscr cmds).
+Proof. exact run_TOP. Qed.
+Theorem C14_never_unreachable : forall scr bscr cmds, gens_small (slots (run scr bscr cmds)) -> halted (run scr bscr cmds) = false ->
+  let s := run scr bscr cmds in
+  snd (before_sleep_loop bscr s (lifecycle s)) <> BSPanic /\
+  forall e2 line polled, let s1 := fst (before_sleep_loop bscr s (lifecycle s)) in
+    snd (before_handle_loop (emit (set_en s1 e2) line) (lifecycle (emit (set_en s1 e2) line)) polled) = true.
+Proof. exact never_unreachable. Qed.
 
 Example C14_nonvacuous :
   let t := mkTok 2 5 0 in NoDup [mkTok 1 0 0; t] /\ lc_register [mkTok 1 0 0; t] t = [mkTok 1 0 0; t] /\ lc_unregister [mkTok 1 0 0; t] t = [mkTok 1 0 0].
